@@ -15,7 +15,7 @@ RULE = ('exhaustive boolean space role(server, client) x marker(own, other role\
         'instantiated with database names of each shape (quick: random matching names; thorough: every matching database name in every combination class, plus unknown names of the same shapes); '
         'oracle = 10-line model of the published rule over (flagged set, advisory names, additions recommended); a case is non-trivial when the audit completed and the flagged set was compared; '
         'distinct = distinct (combination, instantiation, rendering)')
-REQUIRED = {'multi_target_blocks': 8, 'audits_completed': 100, 'flagged_sets_compared': 100, 'expected_exposed': 20, 'expected_advisory': 20, 'client_role': 20}
+REQUIRED = {'cross_category_cases': 10, 'multi_target_blocks': 8, 'audits_completed': 100, 'flagged_sets_compared': 100, 'expected_exposed': 20, 'expected_advisory': 20, 'client_role': 20}
 ASSUMPTIONS = ['with different lists per direction the peer\'s own sending direction decides (client-to-server lists of a client, server-to-client lists of a server); the report can only show warnings on the names it displays (server-to-client lists)', 'shapes are the published ones: prefix chacha20-poly1305; suffixes -cbc, -cbc@openssh.org, -cbc@ssh.com, rijndael-cbc@lysator.liu.se; suffix -etm@openssh.com',
                '"carries the Terrapin warning" = a warning- or failure-level note naming CVE-2023-48795 (the strict-kex pseudo algorithm\'s informational text is not a warning)']
 MANIFEST = {
@@ -43,6 +43,9 @@ def cases(tier, seed):
     for role, marker, nch, ncb, net in combos:
         for rnd in ('text', 'json'):
             cs.append({'kind': 'combo', 'role': role, 'marker': marker, 'cha': rng.sample(cha, nch), 'cbc': rng.sample(cbc, ncb), 'etm': rng.sample(etm, net), 'render': rnd, 'seed': rng.randrange(1 << 30)})
+            if nch and (tier == 'thorough' or (ncb + net) % 2 == 0):
+                # the ChaCha name is also listed as a MAC (some servers do): the warning belongs to the cipher entry only
+                cs.append({'kind': 'combo', 'role': role, 'marker': marker, 'cha': rng.sample(cha, nch), 'cbc': rng.sample(cbc, ncb), 'etm': rng.sample(etm, net), 'render': rnd, 'seed': rng.randrange(1 << 30), 'cross': True})
     if tier == 'thorough':
         # every matching database name appears in every combination class it can appear in
         for role, marker in itertools.product(['server', 'client'], ['own', 'other', 'both', 'none']):
@@ -152,7 +155,7 @@ def run_case(c):
     fill_enc = rng.sample([n for n in names['enc'] if not is_shape(n)], rng.randint(1, 3))
     fill_mac = rng.sample([n for n in names['mac'] if not is_shape(n)], rng.randint(1, 3))
     enc = fill_enc + c['cha'] + c['cbc']
-    mac = fill_mac + c['etm']
+    mac = fill_mac + c['etm'] + (c['cha'] if c.get('cross') else [])
     rng.shuffle(enc)
     rng.shuffle(mac)
     banner = 'SSH-2.0-OpenSSH_9.%d' % rng.randint(0, 9)
@@ -240,6 +243,13 @@ def run_case(c):
             viol.append(_v('C04/flagged-%s:%s:%s' % (k, c['role'], which + (':asymmetric-lists' if asym_V is not None else '')), 'the set of algorithms carrying the Terrapin warning differs from the published rule', got=sorted(flagged), want=sorted(V), combo=combo, marker=c['marker']))
         if adv:
             viol.append(_v('C04/advisory-without-marker:' + c['role'], 'advisory note although the marker is absent', combo=combo))
+    # the warning sits on the cipher entry of a cipher and on the MAC entry of a MAC (a name listed in both categories is flagged in its own only)
+    flagged_pairs = {(cat, n) for (cat, n, lvl, txt) in find if CVE in txt and lvl in ('warn', 'fail')}
+    wrong_cat = sorted((cat, n) for (cat, n) in flagged_pairs if (cat == 'mac') != n.endswith('-etm@openssh.com'))
+    if c.get('cross'):
+        counters['cross_category_cases'] = 1
+    if wrong_cat:
+        viol.append(_v('C04/flag-in-wrong-category', 'the Terrapin warning is attached to an entry of another category than the one the rule names', entries=wrong_cat, render=c['render']))
     if flagged_cats - {'enc', 'mac'}:
         viol.append(_v('C04/flag-outside-enc-mac', 'a non cipher/MAC algorithm carries the Terrapin warning', cats=sorted(flagged_cats)))
     k_all = script['kex']
